@@ -856,6 +856,16 @@ func readerNextFrameRules(c *Ctx, prop string) {
 			}
 			if h, ok := np.retHdr.(fold.Struct); !ok || len(h.F) != 6 || intName(h.F[1]) != prev {
 				problems = append(problems, "returned header is not the extensions' result")
+			} else {
+				// every other field is what the decoder produced: the application sees the frame's
+				// own fin / opcode / mask / length (a continuation stays a continuation), exactly
+				// as ws.ReadHeader would report the same bytes
+				want := headerVal(np.in.fin, 0, int64(np.in.op), np.in.masked, fold.Arr{E: []fold.Val{fold.Int{Lo: 0, Hi: 255, Name: "m0"}, fold.Int{Lo: 0, Hi: 255, Name: "m1"}, fold.Int{Lo: 0, Hi: 255, Name: "m2"}, fold.Int{Lo: 0, Hi: 255, Name: "m3"}}}, fold.Int{Lo: 0, Hi: fold.MaxInt64, Name: "Length"})
+				for _, i := range []int{0, 2, 3, 4, 5} {
+					if got, w := fold.Show(h.F[i]), fold.Show(want.F[i]); got != w {
+						problems = append(problems, fmt.Sprintf("NextFrame returns header field %d as %s, the decoder produced %s [fin=%v op=%#x masked=%v fragmented=%v]", i, got, w, np.in.fin, np.in.op, np.in.masked, np.in.frag))
+					}
+				}
 			}
 			n++
 		}
@@ -933,8 +943,11 @@ func uniq(s []string) []string {
 // ruleWanted maps properties to the NextFrame rule groups they own.
 func ruleWanted(prop, r string) bool {
 	switch prop {
+	case "C01":
+		return r == "ext" // what NextFrame hands back is the decoded header
 	case "C04":
-		return r == "source" || r == "install" || r == "state"
+		// size: a valid frame of exactly MaxFrameSize bytes is delivered, not refused
+		return r == "source" || r == "install" || r == "state" || r == "size"
 	case "C05":
 		return r == "gate" || r == "size" || r == "eof" || r == "ext" || r == "state"
 	case "C08":
